@@ -464,6 +464,8 @@ type FuncContract struct {
 	Ghosts   []*GhostStmt
 	Params   []QVar // for library specs: parameter names
 	Nonblock bool
+	Safety   bool
+	SafetyTags []string
 }
 
 type LoopContract struct {
@@ -535,6 +537,7 @@ type SpecFile struct {
 	Guards  []*GuardDecl
 	Monotone []*GuardDecl
 	Rules   []*Rule
+	Globals []*GhostField
 	Lines   int
 	Assumes []string
 }
@@ -542,7 +545,7 @@ type SpecFile struct {
 var clauseKinds = map[string]bool{
 	"requires": true, "ensures": true, "modifies": true, "invariant": true, "decreases": true,
 	"inline": true, "trusted": true, "nonblocking": true, "acquires": true, "releases": true,
-	"ghost": true, "assert": true, "assume": true, "params": true, "havocs": true, "reads": true, "check": true,
+	"ghost": true, "assert": true, "assume": true, "params": true, "havocs": true, "reads": true, "check": true, "safety": true,
 }
 
 var topKinds = map[string]bool{"func": true, "loop": true, "pure": true, "predicate": true, "lemma": true,
@@ -783,6 +786,10 @@ func ParseSpecFile(path, pkg string) (*SpecFile, error) {
 			curF, curL = nil, nil
 		case "ghost":
 			f := strings.Fields(it.rest)
+			if len(f) >= 3 && f[0] == "global" {
+				sf.Globals = append(sf.Globals, &GhostField{Pkg: sf.Pkg, Name: f[1], Type: strings.Join(f[2:], "")})
+				continue
+			}
 			if len(f) >= 4 && f[0] == "field" {
 				sf.Ghosts = append(sf.Ghosts, &GhostField{Pkg: sf.Pkg, Recv: f[1], Name: f[2], Type: strings.Join(f[3:], "")})
 				continue
@@ -866,6 +873,11 @@ func ParseSpecFile(path, pkg string) (*SpecFile, error) {
 				}
 				gs.Check = e
 				curF.Ghosts = append(curF.Ghosts, gs)
+				continue
+			case "safety":
+				// safety[Cxx]: no-panic obligations (index, slice, nil, division, type assertion, explicit panic) for this function
+				curF.Safety = true
+				curF.SafetyTags = tags
 				continue
 			case "inline":
 				curF.Inline = true
